@@ -7,8 +7,9 @@
     - [model_action_table]: per variant of [ArgAction]: default_num_args, takes_values, default_value,
       default_missing_value, default_value_parser;
     - [arg_build_table]: [Build.arg_build] IS the function [tbl_arg_build] that interprets the table (for every [arg]);
-    - [model_action_gate]: max_num_args / value_type_id as used by the configuration gate [assert_arg] -- the model is
-      STRICTER than the source for SetTrue/SetFalse ([model_action_gate_refuted] is the witness).
+    - [model_action_gate]: max_num_args / value_type_id as used by the configuration gate [assert_arg] (equal to the
+      source for every action since the repair of Parse/Cmd.v; the comparison had found the model stricter for
+      SetTrue/SetFalse).
     An edit of the source that changes one of these facts changes the generated file and breaks the lemma named here. *)
 From Coq Require Import List NArith String Ascii Bool Lia.
 From ClapModel Require Import Base.Bytes Base.Machine Parse.Cmd Parse.Build Parse.Valid Gen.ActionTables.
@@ -154,25 +155,21 @@ Definition flag_action (act : action) : bool := match act with ASetTrue | ASetFa
 Definition src_max_num_args (act : action) : option vrange := obind (row_of act) (fun row => range_named (ga_max_num_args row)).
 Definition src_value_type (act : action) : option (option N) := obind (row_of act) (fun row => opt_lift type_named (ga_value_type_id row)).
 
-(** For every action other than SetTrue/SetFalse the model's gate data are the source's.  For SetTrue/SetFalse the
-    model's gate is STRICTER: the source allows [num_args(0..=1)] (ValueRange::OPTIONAL) and any value parser, the
-    model allows [num_args(0)] only and demands a bool-typed parser. *)
+(** The model's gate data are the source's, for every action (after the repair of [Parse/Cmd.v]: SetTrue/SetFalse allow
+    [num_args(0..=1)] -- ValueRange::OPTIONAL -- and any value parser, as action.rs says; before the repair the model had
+    [r_empty] and a bool-typed parser there and rejected `--flag=false` configurations clap accepts). *)
 Theorem model_action_gate : forall act,
-  exists r ty, src_max_num_args act = Some r /\ src_value_type act = Some ty
-    /\ vmax (action_max_num_args act) <= vmax r
-    /\ (flag_action act = false -> action_max_num_args act = r /\ action_value_type act = ty)
-    /\ (flag_action act = true -> action_max_num_args act = r_empty /\ r = {| vmin := 0; vmax := 1 |}
-                                  /\ action_value_type act = Some (vp_type VPBool) /\ ty = None).
-Proof.
-  intros []; eexists; eexists; (split; [reflexivity|split; [reflexivity|]]); cbn;
-    (split; [lia|split; intros H; try discriminate H; repeat split; reflexivity]).
-Qed.
+  src_max_num_args act = Some (action_max_num_args act) /\ src_value_type act = Some (action_value_type act).
+Proof. intros []; split; reflexivity. Qed.
 
-(** the planned statement "the model's max_num_args / value_type_id equal the table" is false of the model *)
-Theorem model_action_gate_refuted :
-  exists act, src_max_num_args act <> Some (action_max_num_args act)
-              /\ src_value_type act <> Some (action_value_type act).
-Proof. exists ASetTrue. split; vm_compute; discriminate. Qed.
+(** the only actions whose occurrences can carry a value: Set / Append, and SetTrue / SetFalse (`--flag=value`) *)
+Theorem model_action_takes_value_arg : forall act,
+  vmax (action_max_num_args act) <> 0 <-> (act = ASet \/ act = AAppend \/ act = ASetTrue \/ act = ASetFalse).
+Proof.
+  intros act. split.
+  - destruct act; cbn; intros H; try (exfalso; apply H; reflexivity); tauto.
+  - intros [ -> | [ -> | [ -> | -> ] ] ]; cbn; discriminate.
+Qed.
 
 (** consequence for the gate: whatever the model's [assert_arg] accepts passes the source's two assertions
     (`max_values() <= action.max_num_args().max_values()`, `action.value_type_id() == value_parser.type_id()`) *)
@@ -184,12 +181,11 @@ Proof.
   intros a H. unfold assert_arg in H. repeat (apply andb_true_iff in H as [H ?]).
   match goal with Hm : (vmax _ <=? vmax (action_max_num_args _)) = true |- _ => apply N.leb_le in Hm; rename Hm into Hmax end.
   match goal with Ht : match action_value_type _ with _ => _ end = true |- _ => rename Ht into Hty end.
-  destruct (model_action_gate (a_get_action a)) as (r & ty & Hr & Ht & Hle & Hnf & Hf).
-  exists r, ty. split; [exact Hr|split; [exact Ht|split; [lia|]]].
-  intros t ->. destruct (flag_action (a_get_action a)) eqn:Ef.
-  - destruct (Hf eq_refl) as (_ & _ & _ & Hn). discriminate Hn.
-  - destruct (Hnf eq_refl) as (_ & Hv). rewrite Hv in Hty.
-    destruct (a_vp a) as [vp|]; [|discriminate Hty]. exists vp. split; [reflexivity|]. apply N.eqb_eq in Hty. symmetry. exact Hty.
+  destruct (model_action_gate (a_get_action a)) as [Hr Ht].
+  exists (action_max_num_args (a_get_action a)), (action_value_type (a_get_action a)).
+  split; [exact Hr|split; [exact Ht|split; [exact Hmax|]]].
+  intros t Et. rewrite Et in Hty.
+  destruct (a_vp a) as [vp|]; [|discriminate Hty]. exists vp. split; [reflexivity|]. apply N.eqb_eq in Hty. symmetry. exact Hty.
 Qed.
 
 (** ---- arg.rs: Arg::_build interpreted from the table ---- *)
@@ -338,10 +334,10 @@ Module TablesActionsExamples.
   (* hypotheses of [model_gate_implies_source]: the built Count flag passes the model's gate *)
   Example gate_count : assert_arg (arg_build ex_count) = true.
   Proof. vm_compute. reflexivity. Qed.
-  (* the configuration on which model and source gates differ: SetTrue with num_args(0..=1) *)
+  (* the configuration on which model and source gates differed before the repair: SetTrue with num_args(0..=1) *)
   Definition ex_opt_flag : arg :=
     (arg_new [113]) <| a_long := Some [113] |> <| a_action := Some ASetTrue |> <| a_num := Some {| vmin := 0; vmax := 1 |} |>.
-  Example gate_differs : assert_arg (arg_build ex_opt_flag) = false
-    /\ exists r, src_max_num_args ASetTrue = Some r /\ vmax {| vmin := 0; vmax := 1 |} <= vmax r.
-  Proof. split; [vm_compute; reflexivity|]. eexists. split; [reflexivity|]. cbn. lia. Qed.
+  Example gate_accepts_optional_flag : assert_arg (arg_build ex_opt_flag) = true
+    /\ src_max_num_args ASetTrue = Some {| vmin := 0; vmax := 1 |}.
+  Proof. split; [vm_compute; reflexivity|reflexivity]. Qed.
 End TablesActionsExamples.
